@@ -19,7 +19,7 @@ MOD = "mc.props.c02"
 RTOL = 2e-7   # gap ~ (dP/dT)^2: twice the unit-bearing tolerance of DESIGN §5, on the Q-weighted absolute scale
 
 DIMS = OrderedDict(list(c01.DIMS.items()) + [("cv", ["const", "field", "tiny", "large"])])
-DIMS["tgrid"] = ["std", "zero", "low", "hot", "mix"]
+DIMS["tgrid"] = ["std", "zero", "low", "hot", "mix", "desc", "mid0", "n7", "n8", "n9", "n16"]
 SHEAR = [(a, b) for a in range(1, 7) for b in range(a, 7) if b >= 4]
 
 
